@@ -39,6 +39,7 @@ SELECT = {
     "C06": lambda f: not (f["pred"] or f["assert"] or f["oc"]),
     "C05": lambda f: not (f["pred"] or f["assert"] or f["oc"] or f["leftrec"] or f["empty_rule"]),
     "C08": lambda f: f["oc"],
+    "C07": lambda f: f["leftrec"] and not (f["pred"] or f["assert"] or f["oc"]),
 }
 
 
@@ -92,6 +93,58 @@ def sigs_of_flat(flat):
     return out
 
 
+def pratt_corpus(tier):
+    """Pratt grammars enumerated by shape: branch kinds x order x right-declarations (C07)."""
+    import itertools, random
+    rng = random.Random(seed())
+    T = lambda x: ("tok", x)
+    E = ("ref", "e")
+    cat = lambda *xs: ("cat", list(xs))
+    pool = {
+        "add": cat(E, T("P"), E), "mul": cat(E, T("M"), E), "pow": cat(E, T("H"), E),
+        "two": cat(E, ("paren", ("alt", [T("P"), T("M")])), E),
+        "neg": cat(T("U"), E), "post": cat(E, T("B")),
+        "tern": cat(E, T("Q"), E, T("C"), E), "idx": cat(E, T("L"), E, T("R")),
+        "par": cat(T("L"), E, T("R")),
+        "radd": cat(E, T("P"), E, ("rename", "bin")),
+    }
+    names = sorted(pool)
+    combos = []
+    for k in (1, 2, 3):
+        for c in itertools.combinations(names, k):
+            toks = [l[1] for n in c for l in G.leaves_of(pool[n]) if l[0] == "tok"]
+            if len(set(toks)) != len(toks) and not ({"par", "idx"} <= set(c)):
+                continue  # operators must be distinct (conflict-free)
+            if {"par", "idx"} <= set(c) or ({"add", "radd"} <= set(c)) or ({"two"} & set(c) and {"add", "mul", "radd"} & set(c)):
+                continue
+            combos.append(c)
+    rng.shuffle(combos)
+    out = []
+    limit = 36 if tier == "quick" else 400
+    for c in combos:
+        orders = list(itertools.permutations(c))
+        rng.shuffle(orders)
+        for order in orders[: (1 if tier == "quick" else 3)]:
+            ops = [t for t in ("P", "M", "H", "Q") if any(l == ("tok", t) for n in order for l in G.leaves_of(pool[n]))]
+            subsets = [()] + [(o,) for o in ops] + ([tuple(ops)] if len(ops) > 1 else [])
+            if "two" in order:
+                subsets = [(), ("P", "M")]
+            rng.shuffle(subsets)
+            for right in subsets[: (2 if tier == "quick" else 4)]:
+                branches = [pool[n] for n in order] + [T("N")]
+                toks = ["N"]
+                for b in branches:
+                    for l in G.leaves_of(b):
+                        if l[0] == "tok" and l[1] not in toks:
+                            toks.append(l[1])
+                g = G.mk("pr_%s_r%s" % ("_".join(order), "".join(right)), toks,
+                         [("s", E), ("e", ("alt", branches))], right=list(right))
+                out.append((g["name"], G.render(g)))
+                if len(out) >= limit:
+                    return out
+    return out
+
+
 KEEP_EV = {
     "C01": (), "C03": (), "C04": (), "C06": (),
     "C02": ("create", "delete"), "C05": ("act",), "C16": ("pred",), "C08": ("create", "delete", "act"),
@@ -132,9 +185,12 @@ def build_all(files):
     ensure_harness()
 
     def one(f):
-        name = os.path.basename(f)[:-4]
-        with open(f) as fh:
-            text = fh.read()
+        if isinstance(f, tuple):
+            name, text = f
+        else:
+            name = os.path.basename(f)[:-4]
+            with open(f) as fh:
+                text = fh.read()
         wd = cache_dir("p2", name)
         stamp = os.path.join(wd, "built.json")
         if os.path.exists(stamp):
@@ -149,10 +205,10 @@ def build_all(files):
     return parallel(one, files)
 
 
-def outcomes_for(b, cap, pairs):
+def outcomes_for(b, cap, pairs, with_skips=True):
     """Recorded runs of the real parser for grammar b (cached per tree hash)."""
     wd = cache_dir("p2", b.name)
-    alpha, skips = alphabet_for(b.export)
+    alpha, skips = alphabet_for(b.export, with_skips)
     full = alpha + skips
     n = bound_for(len(full), cap)
     entries = ["start"] + list(b.export.get("semaparts", []))
@@ -174,8 +230,13 @@ def outcomes_for(b, cap, pairs):
 def judge(prop, tier):
     rep = Report(prop, tier, "model_checking")
     files = corpus_files()
+    if prop == "C07":
+        files = files + pratt_corpus(tier)
     built = build_all(files)
     cap = 1600 if tier == "quick" else 30000
+    if prop == "C07":
+        cap = 4000 if tier == "quick" else 60000
+    with_skips = prop != "C07"
     pairs = prop == "C16"
     sel = [b for b in built if b.ok and SELECT[prop](b.feat)]
     notbuilt = [b for b in built if not b.ok]
@@ -184,7 +245,10 @@ def judge(prop, tier):
     selftest = {"corrupted": 0, "rejected": 0}
 
     def one(b):
-        outs, meta = outcomes_for(b, cap, pairs)
+        outs, meta = outcomes_for(b, cap, pairs, with_skips)
+        if prop in ("C05", "C07"):
+            # these two judge sentences only (a run with a diagnostic is C04's business)
+            outs = [o for o in outs if not o["diags"] and not o["panic"]]
         wd = cache_dir("p2", b.name)
         gfile = os.path.join(wd, "G.ndjson")
         write_ndjson(gfile, [G.export_to_tlc(b.export)])
@@ -287,6 +351,7 @@ NONTRIVIAL_RULE = {
     "C05": "the input is a sentence (no diagnostic) with at least one token",
     "C06": "the run produced at least one diagnostic",
     "C16": "the input contains at least one skipped or Error token",
+    "C07": "the input is a sentence with at least two operators (precedence or associativity decides its tree)",
     "C08": "at least one node was discarded by backtracking (a deleted-callback fired) or the run has a diagnostic",
 }
 
@@ -310,6 +375,8 @@ def nontrivial_count(prop, outs, pairs, b):
             n += any(t in skips for t in o["w"])
         elif prop == "C08":
             n += bool(o["diags"]) or any(x["e"] == "delete" for x in o["events"])
+        elif prop == "C07":
+            n += (not o["diags"]) and sum(1 for x in o["flat"] if x[0] == "r") >= 4
     return n
 
 
@@ -350,7 +417,7 @@ def corrupt_record(recs, prop):
                     if co["diags"][0][0] + 1 < len(co["w"]) else [[0, 1, "x"]] + co["diags"][1:]
                 if co["diags"] != o["diags"]:
                     return c
-        elif prop == "C05":
+        elif prop in ("C05", "C07"):
             if not co["diags"] and "c" in co["tree"] and co["tree"]["c"]:
                 co["tree"]["c"] = co["tree"]["c"][1:]
                 return c
